@@ -14,8 +14,8 @@ import (
 // C12 (custom contract-to-chain messages): on the main network and on the test network every one of the twenty custom
 // message handlers refuses a sender contract that is not one of the network's designated governance contracts, before
 // touching any keeper. Contrapositive form: chain id is one of the two networks (Choose), the sender contract is ANY
-// address whose bech32 form is none of that network's two governance contracts, the message body is irrelevant; the
-// handler must return an error. The privileged action behind each guard is a spy stub.
+// address whose bech32 form is none of that network's two governance contracts, the message body is arbitrary (it is written by the
+// sender, so it may name any address); the handler must return an error. The privileged action behind each guard is a spy stub.
 var vpWasmActions = []string{"MsgAddAuctionParams", "MsgAddESMTriggerParams", "MsgAddEmissionPoolRewards", "MsgAddEmissionRewards", "MsgAddExtendedPairsVault",
 	"MsgBurnGovTokensForApp", "MsgFoundationEmission", "MsgGetSurplusFund", "MsgRebaseMint", "MsgRemoveWhitelistAppIDLiquidation", "MsgRemoveWhitelistAppIDVaultInterest",
 	"MsgRemoveWhitelistAssetLocker", "MsgSetAuctionMappingForApp", "MsgSetCollectorLookupTable", "MsgUpdateCollectorLookupTable", "MsgUpdatePairsVault",
@@ -47,140 +47,180 @@ func vpWasmGuard(call func(m *CustomMessenger, ctx sdk.Context, contract sdk.Acc
 
 func VP_C12_WasmWhitelistAssetLocker() {
 	vpWasmGuard(func(m *CustomMessenger, ctx sdk.Context, c sdk.AccAddress) error {
-		_, _, err := m.whitelistAssetLocker(ctx, c, &bindings.MsgWhiteListAssetLocker{})
+		var body bindings.MsgWhiteListAssetLocker
+		zzvp.AnyOf(&body) // whatever the contract wrote into the message, including other contracts' addresses
+		_, _, err := m.whitelistAssetLocker(ctx, c, &body)
 		return err
 	})
 }
 
 func VP_C12_WasmWhitelistAppIDLockerRewards() {
 	vpWasmGuard(func(m *CustomMessenger, ctx sdk.Context, c sdk.AccAddress) error {
-		_, _, err := m.whitelistAppIDLockerRewards(ctx, c, &bindings.MsgWhitelistAppIDLockerRewards{})
+		var body bindings.MsgWhitelistAppIDLockerRewards
+		zzvp.AnyOf(&body) // whatever the contract wrote into the message, including other contracts' addresses
+		_, _, err := m.whitelistAppIDLockerRewards(ctx, c, &body)
 		return err
 	})
 }
 
 func VP_C12_WasmWhitelistAppIDVaultInterest() {
 	vpWasmGuard(func(m *CustomMessenger, ctx sdk.Context, c sdk.AccAddress) error {
-		_, _, err := m.whitelistAppIDVaultInterest(ctx, c, &bindings.MsgWhitelistAppIDVaultInterest{})
+		var body bindings.MsgWhitelistAppIDVaultInterest
+		zzvp.AnyOf(&body) // whatever the contract wrote into the message, including other contracts' addresses
+		_, _, err := m.whitelistAppIDVaultInterest(ctx, c, &body)
 		return err
 	})
 }
 
 func VP_C12_WasmAddExtendedPairsVault() {
 	vpWasmGuard(func(m *CustomMessenger, ctx sdk.Context, c sdk.AccAddress) error {
-		_, _, err := m.AddExtendedPairsVault(ctx, c, &bindings.MsgAddExtendedPairsVault{})
+		var body bindings.MsgAddExtendedPairsVault
+		zzvp.AnyOf(&body) // whatever the contract wrote into the message, including other contracts' addresses
+		_, _, err := m.AddExtendedPairsVault(ctx, c, &body)
 		return err
 	})
 }
 
 func VP_C12_WasmSetCollectorLookupTable() {
 	vpWasmGuard(func(m *CustomMessenger, ctx sdk.Context, c sdk.AccAddress) error {
-		_, _, err := m.SetCollectorLookupTable(ctx, c, &bindings.MsgSetCollectorLookupTable{})
+		var body bindings.MsgSetCollectorLookupTable
+		zzvp.AnyOf(&body) // whatever the contract wrote into the message, including other contracts' addresses
+		_, _, err := m.SetCollectorLookupTable(ctx, c, &body)
 		return err
 	})
 }
 
 func VP_C12_WasmSetAuctionMappingForApp() {
 	vpWasmGuard(func(m *CustomMessenger, ctx sdk.Context, c sdk.AccAddress) error {
-		_, _, err := m.SetAuctionMappingForApp(ctx, c, &bindings.MsgSetAuctionMappingForApp{})
+		var body bindings.MsgSetAuctionMappingForApp
+		zzvp.AnyOf(&body) // whatever the contract wrote into the message, including other contracts' addresses
+		_, _, err := m.SetAuctionMappingForApp(ctx, c, &body)
 		return err
 	})
 }
 
 func VP_C12_WasmUpdatePairsVault() {
 	vpWasmGuard(func(m *CustomMessenger, ctx sdk.Context, c sdk.AccAddress) error {
-		_, _, err := m.UpdatePairsVault(ctx, c, &bindings.MsgUpdatePairsVault{})
+		var body bindings.MsgUpdatePairsVault
+		zzvp.AnyOf(&body) // whatever the contract wrote into the message, including other contracts' addresses
+		_, _, err := m.UpdatePairsVault(ctx, c, &body)
 		return err
 	})
 }
 
 func VP_C12_WasmUpdateCollectorLookupTable() {
 	vpWasmGuard(func(m *CustomMessenger, ctx sdk.Context, c sdk.AccAddress) error {
-		_, _, err := m.UpdateCollectorLookupTable(ctx, c, &bindings.MsgUpdateCollectorLookupTable{})
+		var body bindings.MsgUpdateCollectorLookupTable
+		zzvp.AnyOf(&body) // whatever the contract wrote into the message, including other contracts' addresses
+		_, _, err := m.UpdateCollectorLookupTable(ctx, c, &body)
 		return err
 	})
 }
 
 func VP_C12_WasmRemoveWhitelistAssetLocker() {
 	vpWasmGuard(func(m *CustomMessenger, ctx sdk.Context, c sdk.AccAddress) error {
-		_, _, err := m.RemoveWhitelistAssetLocker(ctx, c, &bindings.MsgRemoveWhitelistAssetLocker{})
+		var body bindings.MsgRemoveWhitelistAssetLocker
+		zzvp.AnyOf(&body) // whatever the contract wrote into the message, including other contracts' addresses
+		_, _, err := m.RemoveWhitelistAssetLocker(ctx, c, &body)
 		return err
 	})
 }
 
 func VP_C12_WasmRemoveWhitelistAppIDVaultInterest() {
 	vpWasmGuard(func(m *CustomMessenger, ctx sdk.Context, c sdk.AccAddress) error {
-		_, _, err := m.RemoveWhitelistAppIDVaultInterest(ctx, c, &bindings.MsgRemoveWhitelistAppIDVaultInterest{})
+		var body bindings.MsgRemoveWhitelistAppIDVaultInterest
+		zzvp.AnyOf(&body) // whatever the contract wrote into the message, including other contracts' addresses
+		_, _, err := m.RemoveWhitelistAppIDVaultInterest(ctx, c, &body)
 		return err
 	})
 }
 
 func VP_C12_WasmWhitelistAppIDLiquidation() {
 	vpWasmGuard(func(m *CustomMessenger, ctx sdk.Context, c sdk.AccAddress) error {
-		_, _, err := m.WhitelistAppIDLiquidation(ctx, c, &bindings.MsgWhitelistAppIDLiquidation{})
+		var body bindings.MsgWhitelistAppIDLiquidation
+		zzvp.AnyOf(&body) // whatever the contract wrote into the message, including other contracts' addresses
+		_, _, err := m.WhitelistAppIDLiquidation(ctx, c, &body)
 		return err
 	})
 }
 
 func VP_C12_WasmRemoveWhitelistAppIDLiquidation() {
 	vpWasmGuard(func(m *CustomMessenger, ctx sdk.Context, c sdk.AccAddress) error {
-		_, _, err := m.RemoveWhitelistAppIDLiquidation(ctx, c, &bindings.MsgRemoveWhitelistAppIDLiquidation{})
+		var body bindings.MsgRemoveWhitelistAppIDLiquidation
+		zzvp.AnyOf(&body) // whatever the contract wrote into the message, including other contracts' addresses
+		_, _, err := m.RemoveWhitelistAppIDLiquidation(ctx, c, &body)
 		return err
 	})
 }
 
 func VP_C12_WasmAddAuctionParams() {
 	vpWasmGuard(func(m *CustomMessenger, ctx sdk.Context, c sdk.AccAddress) error {
-		_, _, err := m.AddAuctionParams(ctx, c, &bindings.MsgAddAuctionParams{})
+		var body bindings.MsgAddAuctionParams
+		zzvp.AnyOf(&body) // whatever the contract wrote into the message, including other contracts' addresses
+		_, _, err := m.AddAuctionParams(ctx, c, &body)
 		return err
 	})
 }
 
 func VP_C12_WasmBurnGovTokensForApp() {
 	vpWasmGuard(func(m *CustomMessenger, ctx sdk.Context, c sdk.AccAddress) error {
-		_, _, err := m.BurnGovTokensForApp(ctx, c, &bindings.MsgBurnGovTokensForApp{})
+		var body bindings.MsgBurnGovTokensForApp
+		zzvp.AnyOf(&body) // whatever the contract wrote into the message, including other contracts' addresses
+		_, _, err := m.BurnGovTokensForApp(ctx, c, &body)
 		return err
 	})
 }
 
 func VP_C12_WasmAddESMTriggerParams() {
 	vpWasmGuard(func(m *CustomMessenger, ctx sdk.Context, c sdk.AccAddress) error {
-		_, _, err := m.AddESMTriggerParams(ctx, c, &bindings.MsgAddESMTriggerParams{})
+		var body bindings.MsgAddESMTriggerParams
+		zzvp.AnyOf(&body) // whatever the contract wrote into the message, including other contracts' addresses
+		_, _, err := m.AddESMTriggerParams(ctx, c, &body)
 		return err
 	})
 }
 
 func VP_C12_WasmExecuteAddEmissionRewards() {
 	vpWasmGuard(func(m *CustomMessenger, ctx sdk.Context, c sdk.AccAddress) error {
-		_, _, err := m.ExecuteAddEmissionRewards(ctx, c, &bindings.MsgEmissionRewards{})
+		var body bindings.MsgEmissionRewards
+		zzvp.AnyOf(&body) // whatever the contract wrote into the message, including other contracts' addresses
+		_, _, err := m.ExecuteAddEmissionRewards(ctx, c, &body)
 		return err
 	})
 }
 
 func VP_C12_WasmExecuteAddEmissionPoolRewards() {
 	vpWasmGuard(func(m *CustomMessenger, ctx sdk.Context, c sdk.AccAddress) error {
-		_, _, err := m.ExecuteAddEmissionPoolRewards(ctx, c, &bindings.MsgEmissionPoolRewards{})
+		var body bindings.MsgEmissionPoolRewards
+		zzvp.AnyOf(&body) // whatever the contract wrote into the message, including other contracts' addresses
+		_, _, err := m.ExecuteAddEmissionPoolRewards(ctx, c, &body)
 		return err
 	})
 }
 
 func VP_C12_WasmExecuteFoundationEmission() {
 	vpWasmGuard(func(m *CustomMessenger, ctx sdk.Context, c sdk.AccAddress) error {
-		_, _, err := m.ExecuteFoundationEmission(ctx, c, &bindings.MsgFoundationEmission{})
+		var body bindings.MsgFoundationEmission
+		zzvp.AnyOf(&body) // whatever the contract wrote into the message, including other contracts' addresses
+		_, _, err := m.ExecuteFoundationEmission(ctx, c, &body)
 		return err
 	})
 }
 
 func VP_C12_WasmExecuteMsgRebaseMint() {
 	vpWasmGuard(func(m *CustomMessenger, ctx sdk.Context, c sdk.AccAddress) error {
-		_, _, err := m.ExecuteMsgRebaseMint(ctx, c, &bindings.MsgRebaseMint{})
+		var body bindings.MsgRebaseMint
+		zzvp.AnyOf(&body) // whatever the contract wrote into the message, including other contracts' addresses
+		_, _, err := m.ExecuteMsgRebaseMint(ctx, c, &body)
 		return err
 	})
 }
 
 func VP_C12_WasmExecuteMsgGetSurplusFund() {
 	vpWasmGuard(func(m *CustomMessenger, ctx sdk.Context, c sdk.AccAddress) error {
-		_, _, err := m.ExecuteMsgGetSurplusFund(ctx, c, &bindings.MsgGetSurplusFund{})
+		var body bindings.MsgGetSurplusFund
+		zzvp.AnyOf(&body) // whatever the contract wrote into the message, including other contracts' addresses
+		_, _, err := m.ExecuteMsgGetSurplusFund(ctx, c, &body)
 		return err
 	})
 }
